@@ -408,6 +408,8 @@ namespace hv
             if (s.op == "thrower") { put(s.dst, wire<VThrower>(w, pi(a.at(0)), uid)); return; }
             if (s.op == "add2") { put(s.dst, wire<VAdd2>(w, pi(a.at(0)), pi(a.at(1)), uid)); return; }
             if (s.op == "add3") { put(s.dst, wire<VAdd3>(w, pi(a.at(0)), pi(a.at(1)), pi(a.at(2)), uid)); return; }
+            if (s.op == "hi100") { put(s.dst, wire<VHi100>(w, pi(a.at(0)))); return; }
+            if (s.op == "lo100") { put(s.dst, wire<VLo100>(w, pi(a.at(0)))); return; }
             if (s.op == "sum2") { put(s.dst, wire<VSum2>(w, pi(a.at(0)), pi(a.at(1)))); return; }
             if (s.op == "ord2") { put(s.dst, wire<VOrd2>(w, pi(a.at(0)), pi(a.at(1)))); return; }
             if (s.op == "max2") { put(s.dst, wire<VMax2>(w, pi(a.at(0)), pi(a.at(1)))); return; }
